@@ -17,6 +17,7 @@ import (
 	"runtime"
 	"sort"
 	"strings"
+	"sync/atomic"
 	"time"
 
 	"pgregory.net/rapid"
@@ -73,6 +74,7 @@ type vfMachine struct {
 	saves    int
 	failedSv int
 	steps    int
+	beat     int64
 }
 
 func (m *vfMachine) logf(format string, args ...interface{}) {
@@ -1274,7 +1276,32 @@ func vfRunMachine(t *rapid.T, cfg vfCfg) {
 	m.root = vfBuildModel(cfg.initial)
 	m.verifyTree(m.fs, "initial", true)
 
+	// watchdog: an in-memory filesystem call that does not return within two
+	// minutes is a hang (e.g. a lock taken twice), not slowness.
+	stopDog := make(chan struct{})
+	defer close(stopDog)
+	go func() {
+		last, lastChange := int64(-1), time.Now()
+		for {
+			select {
+			case <-stopDog:
+				return
+			case <-time.After(time.Second):
+			}
+			if b := atomic.LoadInt64(&m.beat); b != last {
+				last, lastChange = b, time.Now()
+			} else if time.Since(lastChange) > 120*time.Second {
+				buf := make([]byte, 1<<20)
+				buf = buf[:runtime.Stack(buf, true)]
+				path := os.Getenv("VERIF_WORK") + "/fs-hang.txt"
+				os.WriteFile(path, []byte(fmt.Sprintf("blocksize=%d\nhistory (the call after the last line did not return):\n  %s\n\n%s", cfg.blockSize, strings.Join(m.history, "\n  "), buf)), 0644)
+				fmt.Printf("VERIF-REPLAY: %s\nVERIF-HANG: a collection filesystem call did not return within 120 s; history:\n  %s\n", path, strings.Join(m.history, "\n  "))
+				os.Exit(1)
+			}
+		}
+	}()
 	after := func() {
+		atomic.AddInt64(&m.beat, 1)
 		m.steps++
 		if m.cfg.settle {
 			m.settle()
